@@ -59,6 +59,24 @@ def make_case(tier, seed, index):
             if "stochastic" not in cc["framework"]:  # frameworks calling the random-number generators are excluded by the property
                 projects.append(cc)
                 break
+    # a copy of one of the generated projects whose framework is then edited in place (a parameter function gains a dependency on a
+    # parameter listed later): same identity attributes (uid, name), other content.  Nothing remembered from runs of the
+    # original may leak into runs of the copy.
+    derived_of = None
+    if rng.random() < 0.6:
+        k = int(rng.integers(0, len([p for p in projects if p["kind"] == "generated"])))
+        spec_k = projects[k]["spec"]
+        names = [p["name"] for p in spec_k["pars"]]
+        Cs = [p for p in spec_k["pars"] if p["function"] and not p["timed"] and not p["name"].startswith(("agg", "out"))]
+        edits = []
+        for C in Cs:
+            later = [q for q in spec_k["pars"][names.index(C["name"]) + 1 :] if q["function"] is None and q["db"] and not q["timed"] and q["format"] != "duration" and q["name"] not in C["function"]]
+            if later:
+                edits.append((C, later[int(rng.integers(0, len(later)))]))
+        if edits:
+            C, D = edits[int(rng.integers(0, len(edits)))]
+            projects.append({"kind": "derived", "base_index": k, "base": projects[k], "edit": {"par": C["name"], "function": "(%s)+0.01*%s" % (C["function"], D["name"])}, "progspec": projects[k].get("progspec")})
+            derived_of = (len(projects) - 1, k)
     ops = []
     n = int(rng.integers(6, 10))
     for j in range(n):
@@ -69,14 +87,26 @@ def make_case(tier, seed, index):
         if projects[i].get("scenario"):
             cfgs.append("scenario")
         ops.append([i, str(rng.choice(cfgs))])
+    if derived_of is not None:
+        m, k = derived_of
+        cfg_ = "programs" if (projects[k].get("progspec") and rng.random() < 0.6) else "plain"
+        ops += [[k, cfg_], [m, cfg_], [k, cfg_], [m, cfg_]]
     # make sure something repeats with another project's run in between
     ops.append(list(ops[0]))
     return {"kind": "history", "projects": projects, "ops": ops, "child_hashseed": int(rng.integers(1, 1000))}
 
 
-def build(pdesc):
+def build(pdesc, built=None):
     import atomica as at
 
+    if pdesc["kind"] == "derived":
+        import sciris as sc
+
+        # in the parent the copy is taken from the very project object that is also run unedited; a fresh process builds its own
+        P0, pset0, instr0 = built[pdesc["base_index"]] if built is not None else build(pdesc["base"])
+        P = sc.dcp(P0)
+        P.framework.pars.at[pdesc["edit"]["par"], "function"] = pdesc["edit"]["function"]
+        return P, sc.dcp(pset0), sc.dcp(instr0)
     if pdesc["kind"] == "library":
         name = pdesc["name"]
         P = at.Project(framework=at.LIBRARY_PATH / ("%s_framework.xlsx" % name), databook=at.LIBRARY_PATH / ("%s_databook.xlsx" % name), do_run=False)
@@ -155,7 +185,11 @@ def run_case(case):
     if not _AUD["installed"]:
         sys.addaudithook(_hook)
         _AUD["installed"] = True
-    built = [build(p) for p in case["projects"]]
+    built = []
+    for p in case["projects"]:
+        built.append(build(p, built))
+        if p["kind"] == "derived":
+            R.count("projects_copied_and_edited_in_place")
     # harness sanity: the snapshot is stable
     s1 = digest.snapshot(built[0][0].parsets[0])
     s2 = digest.snapshot(built[0][0].parsets[0])
@@ -343,5 +377,5 @@ def run_case(case):
 
     has_prog = any(k[1] == "programs" for k in seen)
     nontrivial = has_prog and R.stats.get("repeats_with_other_project_in_between", 0) > 0
-    sample = {"ops": case["ops"], "projects": [p["name"] if p["kind"] == "library" else (p["framework"] if p["kind"] == "corpus" else {"comps": len(p["spec"]["comps"]), "pars": len(p["spec"]["pars"]), "pops": p["spec"]["pops"], "programs": bool(p.get("progspec"))}) for p in case["projects"]], "run_errors": {str(k): v for k, v in errors.items()}}
+    sample = {"ops": case["ops"], "projects": [p["name"] if p["kind"] == "library" else (p["framework"] if p["kind"] == "corpus" else {"copy_of": p["base_index"], "edit": p["edit"]} if p["kind"] == "derived" else {"comps": len(p["spec"]["comps"]), "pars": len(p["spec"]["pars"]), "pops": p["spec"]["pops"], "programs": bool(p.get("progspec"))}) for p in case["projects"]], "run_errors": {str(k): v for k, v in errors.items()}}
     return {"records": R.records(), "stats": R.stats, "nontrivial": bool(nontrivial), "sample": sample}
